@@ -137,10 +137,10 @@ NOSCHED_ORD = ('monotonic', 'unordered')
 
 class Engine:
     def __init__(self, m, entry='harness', max_faults=1, max_preempt=2, max_path_steps=400000, max_enum=64,
-                 solver_timeout_ms=20000, single_threaded_libc=True, shared_points=False, harness_roots=None):
+                 solver_timeout_ms=20000, single_threaded_libc=True, shared_points=False, harness_roots=None, linecov=False):
         self.m = m; self.lay = Layout(m); self.entry = entry
         self.max_faults = max_faults; self.max_preempt = max_preempt; self.max_path_steps = max_path_steps; self.max_enum = max_enum
-        self.solver_timeout_ms = solver_timeout_ms; self.shared_points = shared_points
+        self.solver_timeout_ms = solver_timeout_ms; self.shared_points = shared_points; self.linecov = linecov
         self.harness_roots = [os.path.realpath(r).rstrip('/') + '/' for r in (harness_roots or [os.path.dirname(os.path.dirname(os.path.abspath(__file__)))])]
         self.reset_stats()
         self.fobj = {}; self.gobj = {}; self.base = {}
@@ -228,7 +228,7 @@ class Engine:
                 if c != -1: return c
                 n = md.get(nid); c = None
                 if n is not None:
-                    kind, sc, fi, ia, _ = n
+                    kind, sc, fi, ia, _, _ln = n
                     if kind == 'DILocation':
                         c = node_cls(sc)
                         if c is None and ia is not None: c = node_cls(ia)
@@ -243,6 +243,27 @@ class Engine:
                     for ins in blk:
                         c = node_cls(ins.dbg) if ins.dbg is not None else None
                         ins.lib = c if c is not None else f.cls
+        # line keys (only in line-coverage mode, tools/linecov.py): instruction -> index into self.lines [(eventpp header, line)]
+        self.lines = []; self.cov = set()
+        if md and self.linecov:
+            lidx = {}; scf = {}
+            def scope_file(nid):
+                if nid in scf: return scf[nid]
+                n = md.get(nid); r = None
+                if n is not None:
+                    r = md[n[2]][4] if n[2] is not None and n[2] in md else (scope_file(n[1]) if n[1] is not None else None)
+                scf[nid] = r; return r
+            for f in self.m.funcs.values():
+                if not f.defined: continue
+                for blk in f.blocks.values():
+                    for ins in blk:
+                        n = md.get(ins.dbg) if ins.dbg is not None else None
+                        if n is None or n[0] != 'DILocation' or not n[5]: continue
+                        fn = scope_file(n[1])
+                        if not fn or '/include/eventpp/' not in fn: continue
+                        key = (os.path.normpath(fn).split('/include/eventpp/')[1], n[5])
+                        if key not in lidx: lidx[key] = len(self.lines); self.lines.append(key)
+                        ins.lk = lidx[key]
         # phi tables: per block, per predecessor
         for f in self.m.funcs.values():
             if not f.defined: continue
@@ -647,6 +668,15 @@ class Engine:
     def exec_path(self, st, work):
         st.steps0 = st.steps
         limit = self.max_path_steps
+        if self.linecov:
+            cov = self.cov
+            while True:
+                fr = st.threads[st.cur].stack[-1]
+                ins = fr.blk[fr.ip]
+                st.steps += 1
+                if st.steps > limit: raise Violation('path exceeded %d IR steps (non-termination?)' % limit, 'nonterm')
+                if ins.lk is not None: cov.add(ins.lk)
+                ins.h(st, work, fr, ins)
         while True:
             fr = st.threads[st.cur].stack[-1]
             ins = fr.blk[fr.ip]
@@ -1521,7 +1551,7 @@ def _worker(i):
     return {'steps': eng.steps, 'paths': eng.paths, 'queries': eng.queries, 'qtime': eng.qtime, 'forks': eng.forks,
             'violations': eng.violations[:50], 'nviol': len(eng.violations), 'cover_wit': eng.cover_wit, 'fcalls': dict(eng.fcalls), 'samples': eng.samples[:2],
             'inconclusive': eng.inconclusive[:20], 'max_steps_seen': eng.max_steps_seen, 'ended': eng.ended, 'pruned': eng.pruned,
-            'sched_points': eng.sched_points, 'max_threads': eng.max_threads, 'cache_hits': eng.cache_hits, 'deadlocks': eng.deadlocks, 'xq': eng.xq[:3]}
+            'sched_points': eng.sched_points, 'max_threads': eng.max_threads, 'cache_hits': eng.cache_hits, 'deadlocks': eng.deadlocks, 'xq': eng.xq[:3], 'cov': list(eng.cov)}
 
 
 def run(eng, nproc=16, budget_s=None, seed_frontier=None):
@@ -1540,7 +1570,7 @@ def run(eng, nproc=16, budget_s=None, seed_frontier=None):
     tot = {'steps': eng.steps, 'paths': eng.paths, 'queries': eng.queries, 'qtime': eng.qtime, 'forks': eng.forks,
            'violations': list(eng.violations), 'nviol': len(eng.violations), 'cover_wit': dict(eng.cover_wit), 'fcalls': collections.Counter(eng.fcalls),
            'samples': list(eng.samples), 'inconclusive': list(eng.inconclusive), 'max_steps_seen': eng.max_steps_seen, 'ended': eng.ended,
-           'pruned': eng.pruned, 'sched_points': eng.sched_points, 'max_threads': eng.max_threads, 'cache_hits': eng.cache_hits, 'deadlocks': eng.deadlocks, 'xq': list(eng.xq)}
+           'pruned': eng.pruned, 'sched_points': eng.sched_points, 'max_threads': eng.max_threads, 'cache_hits': eng.cache_hits, 'deadlocks': eng.deadlocks, 'xq': list(eng.xq), 'cov': set(eng.cov)}
     if work:
         _G['eng'] = eng; _G['frontier'] = work; _G['deadline'] = deadline
         ctx = mp.get_context('fork')
@@ -1553,6 +1583,7 @@ def run(eng, nproc=16, budget_s=None, seed_frontier=None):
                 if len(tot['samples']) < 8: tot['samples'] += r['samples']
                 tot['inconclusive'] += r['inconclusive']
                 if len(tot['xq']) < 40: tot['xq'] += r['xq']
+                tot['cov'].update(r['cov'])
                 tot['max_steps_seen'] = max(tot['max_steps_seen'], r['max_steps_seen']); tot['max_threads'] = max(tot['max_threads'], r['max_threads'])
     tot['wall'] = time.time() - t0; tot['subtrees'] = len(work)
     return tot
